@@ -95,6 +95,44 @@ Theorem combined_equals_modules : forall mods st q n sd,
 Proof. exact site_info_row. Qed.
 Print Assumptions combined_equals_modules.
 
+(* station names given as a ONE-SHOT iterable (generator expression, map / filter object, iterator) denote the
+   list they enumerate: every entry point - module and combined, dated query and get_history - answers as for
+   the list form *)
+Theorem iterable_forms_equal : forall sd mods l q,
+  module_get sd (AsIter l) q = module_get sd (AsList l) q /\
+  module_get_history sd (AsIter l) = module_get_history sd (AsList l) /\
+  site_info_get mods (AsIter l) q = site_info_get mods (AsList l) q /\
+  site_info_get_history mods (AsIter l) = site_info_get_history mods (AsList l).
+Proof. exact iter_forms. Qed.
+Print Assumptions iterable_forms_equal.
+
+(* whatever form the station argument has (text, list, one-shot iterable), the combined result is, module by
+   module, exactly the module's own answer for the list of names the argument denotes: no module column is
+   missing or shorter *)
+Theorem combined_any_form_equals_modules : forall mods st q n sd rows,
+  nth_error mods n = Some sd ->
+  site_info_get mods st q = inl rows ->
+  module_get sd (AsList (normalize st)) q = inl (column n Nothing rows).
+Proof. exact site_info_get_column. Qed.
+Print Assumptions combined_any_form_equals_modules.
+
+Theorem combined_history_equals_modules : forall mods st n sd rows,
+  nth_error mods n = Some sd ->
+  site_info_get_history mods st = inl rows ->
+  module_get_history sd (AsList (normalize st)) = inl (column n None rows).
+Proof. exact site_info_get_history_column. Qed.
+Print Assumptions combined_history_equals_modules.
+
+(* the dated query is the lookup in the history that get_history returns *)
+Theorem get_is_lookup_in_history : forall sd st q,
+  match module_hist1 sd st with
+  | inl (Some h) => module_get1 sd st q = get h q
+  | inl None => module_get1 sd st q = Nothing
+  | inr e => module_get1 sd st q = e
+  end.
+Proof. exact module_get_via_history. Qed.
+Print Assumptions get_is_lookup_in_history.
+
 (* repeated queries on one source: every answer is the answer of that query alone *)
 Theorem query_pure : forall rs qs,
   qrun all_off (Some rs) qs = map (fun q => snd (qstep all_off (Some rs) q)) qs.
@@ -116,3 +154,12 @@ Example history_nonvacuous :
   normalize (AsText "zimm, Osls ,TRO1"%string) = ["zimm"; "osls"; "tro1"]%string /\
   stripped "zimm"%string = true.
 Proof. vm_compute. repeat split. Qed.
+
+(* non-vacuity of the combined theorems: a two-module source answers a one-shot iterable with full rows *)
+Definition ex_mods : list source :=
+  [[("zimm"%string, Some [(None, Some 100, 1)])]; [("ZIMM"%string, Some [(Some 0, None, 2)])]].
+Example iterable_nonvacuous :
+  site_info_get ex_mods (AsIter ["ZIMM"%string]) (At 50) = inl [("zimm"%string, [Found 1; Found 2])] /\
+  site_info_get_history ex_mods (AsIter ["Zimm"%string])
+    = inl [("zimm"%string, [Some [((NegInf, Fin 100), 1)]; Some [((Fin 0, PosInf), 2)]])].
+Proof. vm_compute. split; reflexivity. Qed.
